@@ -1,3 +1,4 @@
 -- Root of the library: everything (models, specifications, proofs, property theorems).
 -- `lake build Mdsort` (the setup command) therefore checks every proof; a check rebuilds only `Mdsort.Props.Cxx` and the driver.
 import Mdsort.All
+import Mdsort.Proofs.GenBridge
